@@ -1165,6 +1165,10 @@ class Operation(_IRNode):
             region_idx = self.get_region_index(region)
         else:
             region_idx = region
+            if region_idx < 0:
+                region_idx += len(self.regions)
+            if region_idx < 0:
+                raise IndexError("region index out of range")
             region = self.regions[region_idx]
         region.parent = None
         self.regions = self.regions[:region_idx] + self.regions[region_idx + 1 :]
